@@ -32,6 +32,7 @@ func (m *Machine) modelByPattern(fn *ssa.Function) Model {
 			return func(m *Machine, fr *Frame, args []Value) Value {
 				m.schedPoint("atomic.Store")
 				m.storeBits(args[0].(*Term), args[1].(*Term), 8)
+				m.publish(args[1].(*Term), 2)
 				return nil
 			}
 		}
@@ -545,6 +546,7 @@ func buildModels(P *Program) map[string]Model {
 	M["sync/atomic.StorePointer"] = func(m *Machine, fr *Frame, a []Value) Value {
 		m.schedPoint("atomic.Store")
 		m.storeBits(a[0].(*Term), a[1].(*Term), 8)
+		m.publish(a[1].(*Term), 2)
 		return nil
 	}
 	// ---------------- sync ----------------
@@ -984,4 +986,31 @@ func sortedKeys(m map[string]int) []string {
 	}
 	sort.Strings(ks)
 	return ks
+}
+
+// publish marks the block p points to (and, depth levels down, the blocks its pointer-sized words point to)
+// as published through an atomic pointer: any later store to them violates the copy-on-write discipline.
+func (m *Machine) publish(p *Term, depth int) {
+	p = m.simp(p)
+	if !p.IsConst() || p.Val < nilPage {
+		return
+	}
+	b := m.heap.find(p.Val)
+	if b == nil || b.kind != bkData || b.published {
+		return
+	}
+	b = m.wblock(b)
+	b.published = true
+	if depth <= 0 {
+		return
+	}
+	// a slice header {data,len,cap}: follow the data pointer
+	if b.size >= 8 && !b.hasSym(0, 8) {
+		w := m.rawLoad(b, 0, 8)
+		if w.IsConst() {
+			if t := m.heap.find(w.Val); t != nil && t.kind == bkData && t.base == w.Val && t.typ != nil {
+				m.publish(w, depth-1)
+			}
+		}
+	}
 }
